@@ -12,9 +12,12 @@ LITS = [b"", b"a", b"null", b"0123456789abcdefghijklmnopqrstuvwxyzABCDEFGHIJKLMN
 
 
 def pattern(n, seed, alpha):
+    # period 256 (7 is odd): build one period, repeat
     if alpha:
-        return bytes(97 + ((seed + i * 7) & 0xFF) % 26 for i in range(n))
-    return bytes((seed + i * 7) & 0xFF for i in range(n))
+        base = bytes(97 + ((seed + i * 7) & 0xFF) % 26 for i in range(256))
+    else:
+        base = bytes((seed + i * 7) & 0xFF for i in range(256))
+    return (base * (n // 256 + 1))[:n]
 
 
 def gen_history(rng, nops):
@@ -26,6 +29,13 @@ def gen_history(rng, nops):
             ops.append("PB app a %d %d" % (rng.choice([100000, 120000, 180000, 250000, 400000]), rng.getrandbits(16)))
             ops.append(rng.choice(["PB set b 5 65 la 150000", "PB fmt a 90000 7", "PB app a 3 9"]))
         nops = 6
+    elif rng.random() < 0.0012:
+        # huge-buffer phase: capacity of 8 MiB and more, then single requests of 1.2x .. 2.5x the capacity
+        first = rng.choice([8 << 20, (8 << 20) + 5, 9000000, 12000000])
+        ops.append("PB app a %d %d" % (first, rng.getrandbits(16)))
+        ops.append("PB app a %d %d" % (int(first * rng.choice([1.2, 1.5, 1.6, 1.9, 2.5])), rng.getrandbits(16)))
+        ops.append(rng.choice(["PB set b 5 65 la 3000000", "PB fmt a 90000 7", "PB app a 3 9"]))
+        nops = 3
     for _ in range(nops):
         r = rng.random()
         seed = rng.getrandbits(16)
@@ -51,8 +61,10 @@ def gen_history(rng, nops):
                 ops.append("PB fmt r %d %d" % (rng.choice([-3, -2, -1, 0, 1, 2]), seed))
             else:
                 ops.append("PB fmt a %d %d" % (rng.choice([0, 1, 2, 126, 127, 128, 129, 130, 1000, 1000, 70000 if rng.random() < 0.02 else 300]), seed))
-        elif r < 0.84:
+        elif r < 0.82:
             ops.append("PB fmtd %d" % rng.choice([0, -1, 2147483647, -2147483648, 12345]))
+        elif r < 0.84:
+            ops.append("PB fmtc %d %d %d" % (rng.choice([0, 1, 5, 60, 126]), rng.choice([0, 1, 7, 62, 64, 65, 200]), seed))
         elif r < 0.90:
             ops.append("PB reset")
         else:
@@ -72,7 +84,7 @@ def gen_history(rng, nops):
         out = []
         for o in ops:
             f = o.split()
-            if len(f) > 2 and f[1] in ("app", "fmt", "set", "str") and rng.random() < 0.15:
+            if len(f) > 2 and f[1] in ("app", "fmt", "set", "str", "fmtc") and not (f[1] == "app" and int(f[3]) > 4000000) and rng.random() < 0.15:
                 out += ["FAILNEXT 1", o, "FAILNEXT 0"]
             else:
                 out.append(o)
@@ -148,6 +160,12 @@ def shard_fn(shard, nshards, seed, tier, exe, nhist):
             elif kind == "fmt":
                 model += pattern(n, int(op[4]), True)
                 want_ret, terminated = n, True
+            elif kind == "fmtc":
+                sd = int(op[4])
+                bts = pattern(int(op[2]), sd, True) + b"\0" + pattern(int(op[3]), sd + 1, True)
+                model += bts
+                want_ret, terminated = len(bts), True
+                sh.count("sprintbuf.output_with_embedded_NUL")
             elif kind == "fmtd":
                 s = ("%d|xy| 1.50" % int(op[2])).encode()
                 model += s
